@@ -7,6 +7,7 @@ import timeouts as T
 PROP = 'C06'
 VARIANTS = ['apply', 'map', 'imap', 'fork']
 REPLAYERS = {'pool.TimeoutHandler.handle_timeouts': 'replayers/timeout_scan.py',
+             'pool.Pool.apply_async': 'replayers/apply_limits.py',
              'pool.Worker.after_fork': 'replayers/after_fork.py', 'pool.soft_timeout_sighandler': 'replayers/after_fork.py'}
 
 ASSUMPTIONS = [
